@@ -247,13 +247,13 @@ def model_layout(model) -> dict:
     lhs_names, res_names = [], []
     toks = []
     for e in eqs:
-        e["_tree"] = parse_rhs(e["rhs"])
+        tree = parse_rhs(e["rhs"])
         if e["lhs"] not in lhs_names:
             lhs_names.append(e["lhs"])
         toks.append((e["lhs"], 0))
         if TR_HAS_LAG[e["tr"]]:
             toks.append((e["lhs"], -1))
-        toks += tree_tokens(e["_tree"])
+        toks += tree_tokens(tree)
         if not e["identity"]:
             rn = "res_" + e["lhs"]
             if rn not in res_names:
@@ -363,8 +363,6 @@ def gen_case(rng, wild=None) -> dict:
                            "roc": lambda: rng.choice([1.01, 1.05, 0.98, 1.1]),
                            "pct": lambda: rng.choice([1.0, 5.0, -2.0, 0.5])}[kind]
                     db[dbn] = {"off": a, "values": [float(gen()) if rng.random() >= pn else NAN for _ in range(a, b + 1)]}
-    for e in model["eqs"]:
-        e.pop("_tree", None)
     return {"model": model, "source": source_of(model), "freq": freq, "start": start, "nper": nper, "db": db,
             "plan": plan, "opts": opts}
 
@@ -625,7 +623,7 @@ def _case_stats(case, out, dist):
 
 def correspondence(ctx) -> CorrResult:
     rng = ctx.rng
-    n_models = ctx.scale(320, 9000)
+    n_models = ctx.scale(300, 9000)
     per = 80
     res = CorrResult()
     dist = {"transform": {}, "equations": {}, "periods": {}, "plan_points": {}, "errors": {}, "identities": 0,
@@ -735,13 +733,41 @@ def _finite(*xs):
     return all(math.isfinite(float(x)) for x in xs)
 
 
+def repro_script(case, order) -> str:
+    """A self-contained Python snippet reproducing the simulation of a case through the public API."""
+    f = {1: "yy({0})", 4: "qq({0}, {1})", 12: "mm({0}, {1})", 0: "ii({0})"}[case["freq"]]
+    fr = case["freq"]
+    start = f.format(case["start"]) if fr in (0,) else (f.format(case["start"]) if fr == 1 else
+                                                      f.format(case["start"] // fr, case["start"] % fr + 1))
+    L = ["import numpy as np, irispie as ir", f"m = ir.Sequential.from_string({case['source']!r})"]
+    if case["model"]["params"]:
+        L.append(f"m.assign(**{case['model']['params']!r})")
+    L += [f"start = ir.{start}; span = start >> start + {case['nper'] - 1}", "db = ir.Databox()"]
+    for n, s_ in case["db"].items():
+        vals = ", ".join("np.nan" if v != v else repr(v) for v in s_["values"])
+        L.append(f"db[{n!r}] = ir.Series(start=start + ({s_['off']}), values=np.array([{vals}]))")
+    if case["plan"]:
+        L.append("plan = ir.SimulationPlan(m, span)")
+        for p in case["plan"]:
+            kw = "".join([", when_data=True" if p["when_data"] else "", f", shift={p['shift']}" if p["shift"] != -1 else "",
+                          f", name_format={p['name_format']!r}" if p.get("name_format") else ""])
+            cols = ", ".join(f"start + {c}" for c in p["cols"])
+            L.append(f"plan.exogenize(({cols},), {p['name']!r}, transform={None if p['kind'] == 'none' else p['kind']!r}{kw})")
+    else:
+        L.append("plan = None")
+    o = case["opts"]
+    L.append(f"out = m.simulate(db, span, plan=plan, execution_order={order!r}, shocks_from_data={o['shocks_from_data']}, "
+             f"parameters_from_data={o['parameters_from_data']}, when_simulates_nan='silent')")
+    L.append("print({n: out[n].get_data(span).ravel().tolist() for n in out.keys()})")
+    return "\n".join(L)
+
+
 def check_property(case, order) -> tuple[list[Failure], dict]:
     """Simulate through the public API and check, on the OUTPUT databox, transform(lhs) = rhs + residual for every
     equation and simulated period, and the implied values at exogenized points."""
     info = {"equation_cells": 0, "exogenized_cells": 0, "skipped_nonfinite": 0}
     out = run_impl(case, order)
-    repro = (f"m = irispie.Sequential.from_string({case['source']!r}); see replay file for databox/plan; "
-             f"m.simulate(db, span, plan=plan, execution_order={order!r})")
+    repro = repro_script(case, order)
     if "err" in out:
         return [Failure("simulate:raises", f"Sequential.simulate raises {out['exc']}", {"case": case, "order": order},
                         out["exc"], "a simulated databox", repro)], info
@@ -808,6 +834,14 @@ def check_property(case, order) -> tuple[list[Failure], dict]:
                 ref = get(e["lhs"], t + p["shift"])
                 if p["kind"] == "flat":
                     exo = 0.0
+                if not p["when_data"] and exo != exo and _finite(ref) and x == x:
+                    # exogenized unconditionally on a missing value: the variable must take the (missing) implied value
+                    fails.append(Failure(
+                        f"implied-value:{p['kind']}:missing-not-propagated",
+                        f"{e['lhs']} is exogenized ({p['kind']}, when_data=False) on a missing value at period offset {t} "
+                        f"but comes out as {x}", {"case": case, "order": order, "plan_point": p, "period_offset": t},
+                        float(x), NAN, repro))
+                    continue
                 if not _finite(exo, ref, x):
                     continue                   # when_data fallback or missing conditioning information
                 if p["kind"] in ("log", "diff_log") and (x <= 0 or (p["kind"] == "diff_log" and ref <= 0)):
